@@ -17,7 +17,9 @@ columns the accounting uses: index label, `number`, `position_ver`, `position_ho
 * `convert_array_to_df`   → `arrayToDf`     (entries `> 0`, row-major, at `k·size + size/2`)
 * `remove_from_frame`     → `remove`        (by index label; an empty list removes all; the array
                                              cache is zeroed when the last clusters were removed)
-* `empty`                 → `reset`
+* `empty`                 → `reset`         (`Detector.empty(reset)` calls it unconditionally for either value of
+                                             `reset`: the driver maps the detector-level reset to `reset` too)
+* `to_dict` / `from_dict`, `save` / `Detector.load` of the four detector classes → `roundtrip`
 
 Arrays are *values* here: `addArray a` adds the values the caller's array holds at call time.  The
 code must neither keep a reference to the caller's ndarray nor modify it (`self._array += array`
@@ -116,6 +118,7 @@ inductive Op
   | read
   | remove (ids : List Nat)
   | reset
+  | roundtrip (relabel : Bool)    -- the detector is rebuilt from `to_dict()` (labels kept) or from a saved file (relabelled)
 deriving Repr
 
 /-- `add_charge_dataframe` -/
@@ -154,6 +157,12 @@ def step (g : Geo) (s : St) : Op → St × Out
     -- charge added as arrays and is kept
     ({ s with frame := fr, arr := if !s.frame.isEmpty && fr.isEmpty then zeros g else s.arr }, .unit)
   | .reset => (⟨zeros g, [], 0⟩, .unit)
+  | .roundtrip relabel =>
+    -- `<Detector>.from_dict(detector.to_dict())` / `Detector.load(save(...))`: `to_dict` stores `charge.array`
+    -- (a read: the cache is refreshed) and the cluster table; `from_dict` puts both into a fresh bucket
+    -- (`nextid` starts again at 0; a file does not keep the index labels)
+    let r := (readArr g s).1
+    ({ r with frame := if relabel then labelFrom 0 r.clusters else r.frame, nextid := 0 }, .unit)
 
 def run (g : Geo) : St → List Op → St
   | s, [] => s
@@ -182,6 +191,7 @@ def accStep (g : Geo) (i j : Nat) (x : Rat) : Op → Rat
   | .read => x
   | .remove _ => x      -- (not used: removals are excluded where `acc` is)
   | .reset => 0
+  | .roundtrip _ => x
 
 def acc (g : Geo) (i j : Nat) (x : Rat) (ops : List Op) : Rat := ops.foldl (accStep g i j) x
 
